@@ -1010,7 +1010,7 @@ func callBuiltin(caller *frame, callpos token.Pos, fn *ssa.Builtin, args []value
 		return &caller.defers
 	}
 
-	panic(unsupported("built-in: " + fn.Name()))
+	panic(unsupported("built-in: " + fn.Name() + " in " + caller.fn.String()))
 }
 
 func (m *omap) keyTypeOr(fn *ssa.Builtin) types.Type {
